@@ -141,4 +141,7 @@ impl http_body::Body for Counted {
         let seg = self.seg;
         r.map(|o| o.map(|r| r.map(|f| f.map_data(|d| SegBuf::split(d, seg)))))
     }
+    // a transport that knows the length of the body (content-length, END_STREAM seen) reports the end as soon as it has handed out
+    // the last chunk, before it is polled again: every other segmented body does
+    fn is_end_stream(&self) -> bool { self.seg % 2 == 1 && self.inner.items.is_empty() }
 }
